@@ -13,7 +13,8 @@ Here: 10^5-4*10^5 inserts from 4-16 threads into FEW shards / few keys, for ever
     DashMap types take 4 x the size of the pool that first asked for `shards_count()`, a process constant: pool of 1 or 2 = 4 / 8 shards);
     control shape: the workers of the creating pool itself (the only shape generated code produces);
   * index_insert of distinct / repeated values under 1, 2, 8 keys (all threads push into the same per-key vectors / sets) or under
-    10^4-10^5 keys (shard tables grow and rehash under contention); insert_if_not_present with ALL threads walking the same key
+    10^4-10^5 keys (shard tables grow and rehash under contention; one shape has all threads walk the same key sequence, so that the
+    FIRST insert of every key is raced); insert_if_not_present with ALL threads walking the same key
     sequence (every key is raced by every thread), optionally over serially pre-inserted keys; optionally on top of a serially
     built prefix (a big existing vector: no reallocation during the concurrent fill);
   * one process per case (harness/ds_index, `ds_index p<S> contend ...`, src/contend.rs), one case at a time.
@@ -107,6 +108,11 @@ def gen_cases(tier, seed):
             mode = rng.choice(["std", "ray"])
             cases.append(mk("cri", rng.choice([1, 2]), rng.choice([1, 2]), mode, T, tm(T), nkeys, vdom=rng.choice([0, 0, 1000]),
                             pre=rng.choice([0, 0, 5000]), shape="few keys" if nkeys <= 8 else "many keys"))
+        # every thread walks the SAME key sequence (nkeys = m: item j of every thread has key j): the first insert of every key is raced
+        T = rng.choice([4, 8, 16])
+        cases.append(mk("cri", rng.choice([1, 2]), 1, rng.choice(["std", "ray"]), T, tm(T), tm(T), shape="many keys, first insert of every key raced"))
+        T = rng.choice([4, 8, 16])
+        cases.append(mk("clat", rng.choice([1, 2]), 1, rng.choice(["std", "ray"]), T, tm(T), tm(T), shape="many keys, first insert of every key raced"))
         # ---- CLatIndex: DashMap<K, HashSet<V>>
         for nkeys, vdom in ((rng.choice([1, 2, 4]), 0), (rng.choice([2, 8]), rng.choice([64, 4096])), (rng.choice([5000, 40000]), 0)):
             T = rng.choice([4, 8, 16])
